@@ -150,6 +150,48 @@ class SymInt:
         self.tr.branch(self.term != 0, True)
         return self._new(_pydiv(_t(o), self.term), _v(o) // self.val)
 
+    def __divmod__(self, o):
+        return self.__floordiv__(o), self.__mod__(o)
+
+    def __rdivmod__(self, o):
+        return self.__rfloordiv__(o), self.__rmod__(o)
+
+    def __pos__(self):
+        return self
+
+    def __abs__(self):
+        neg = self.val < 0
+        self.tr.branch(self.term < 0, neg)
+        return self.__neg__() if neg else self
+
+    def __truediv__(self, o):
+        # float result: concretised (recorded as a branch on the operands' values)
+        return int(self) / (int(o) if isinstance(o, SymInt) else o)
+
+    def __rtruediv__(self, o):
+        return (int(o) if isinstance(o, SymInt) else o) / int(self)
+
+    def __pow__(self, o):
+        e = int(o)
+        if e < 0:
+            return int(self) ** e
+        r = 1
+        for _ in range(e):
+            r = self * r
+        return r
+
+    def __rpow__(self, o):
+        return o ** int(self)
+
+    def __lshift__(self, o):
+        return self * (2 ** int(o))
+
+    def __rlshift__(self, o):
+        return o * (2 ** int(self))
+
+    def __rshift__(self, o):
+        return self // (2 ** int(o))
+
     def __repr__(self):
         return f"SymInt({self.val})"
 
